@@ -37,6 +37,10 @@ for C in ${CHECKS:-$ID}; do
 done
 git -C /repo checkout -- .
 echo "== [5] /repo restored: $(git -C /repo status --short | wc -l) modified files"
+echo "== [6] same checks on the restored tree (regenerates evidence; replays found above must pass here)"
+for C in ${CHECKS:-$ID}; do
+  (cd /verif && ./check $C quick >/dev/null 2>&1); echo "   check $C on the unchanged tree: exit $?"
+done
 mkdir -p $DEST && cp $OUT/patch.diff $OUT/seeded_demo.rs $DEST/ && cp $OUT/meta.txt $DEST/agent_notes.txt
 python3 - "$NAME" "$ID" "$CRATE" "$RESULTS" <<'PY'
 import json,sys
